@@ -6,6 +6,7 @@ import (
 	"sort"
 	"strconv"
 	"sync"
+	"time"
 
 	"qchen.fun/fatchoy/x/uuid"
 	. "verifharness/common"
@@ -67,12 +68,18 @@ func runGenConcurrent(s script) (auto int64, outs []outcome) {
 	}
 	var wg sync.WaitGroup
 	res := make([][]concCall, s.callers)
+	gids := make([]int64, s.callers)
+	finished := make([]bool, s.callers)
+	ready := make(chan struct{}, s.callers)
 	start := make(chan struct{})
 	for c := 0; c < int(s.callers); c++ {
 		wg.Add(1)
 		go func(c int) {
 			defer wg.Done()
+			defer func() { hmu.Lock(); finished[c] = true; hmu.Unlock() }()
 			g := goid()
+			gids[c] = g
+			ready <- struct{}{}
 			<-start
 			for n := int64(1); ; n++ {
 				hmu.Lock()
@@ -104,15 +111,45 @@ func runGenConcurrent(s script) (auto int64, outs []outcome) {
 				default:
 					o.kind = 5
 				}
+				hmu.Lock()
 				res[c] = append(res[c], concCall{gid: g, serial: n, o: o, first: -1})
+				hmu.Unlock()
 				if panicked {
 					return
 				}
 			}
 		}(c)
 	}
+	for c := 0; c < int(s.callers); c++ {
+		<-ready
+	}
 	close(start)
-	wg.Wait()
+	allDone := make(chan struct{})
+	go func() { wg.Wait(); close(allDone) }()
+	blocked := 0
+waiting:
+	for {
+		select {
+		case <-allDone:
+			break waiting
+		case <-time.After(25 * time.Millisecond):
+		}
+		// are all remaining callers parked on the generator's mutex with nobody inside Next?
+		hmu.Lock()
+		left := map[int64]bool{}
+		for c := range finished {
+			if !finished[c] {
+				left[gids[c]] = true
+			}
+		}
+		hmu.Unlock()
+		if len(left) > 0 && ConfirmedStuck(nextFrame, left) {
+			blocked = len(left)
+			break waiting
+		}
+	}
+	hmu.Lock()
+	defer hmu.Unlock()
 	// which readings did each call take?
 	type key struct{ g, n int64 }
 	idxs := map[key][]int{}
@@ -157,6 +194,9 @@ func runGenConcurrent(s script) (auto int64, outs []outcome) {
 			last[cc.gid] = cc.o.value
 		}
 		outs = append(outs, cc.o)
+	}
+	if blocked > 0 {
+		outs = append(outs, outcome{kind: 6}) // the callers that never returned
 	}
 	return
 }
